@@ -457,7 +457,9 @@ def clauseText (r : Option (Req × List MsgIn)) : Clause → String
   | .seqLostLook => "C12: client_server_agree over time: lookupTool no longer finds (or alters) the definition of a tool the client has listed under its current definition since the server's tools last changed"
   | .seqStaleCall => "C12: preflight-F32 superseded tools/list page: the SDK server refuses a call the SDK client generated for valid arguments — the Mcp-Param headers mirror a definition of the tool the client received earlier, although it has since listed the tool under its current definition"
   | .seqLostCall => "C12: client_server_agree over time: the SDK server refuses or alters a call the SDK client generated for valid arguments — the client sent no Mcp-Param header although it has listed the tool under its current definition since the server's tools last changed"
+  | .seqRefusedExact => "C12: client_server_agree over time: the SDK server refuses or alters a call of the SDK client that carries exactly the Mcp-Param headers the tool's CURRENT definition demands (the definition the server has registered and lists; valid arguments) — the server validates the mirror against something else, e.g. the annotations of an earlier registration of the tool"
   | .seqAgree => "C12: client_server_agree over time: the SDK server refuses or alters a call the SDK client generated for valid arguments (tool listed under its current definition since the server's tools last changed)"
+  | .unsupportedVersion st code handled => s!"C06+C12: unsupported-version answer: a request whose Mcp-Protocol-Version header and _meta agree on a version this SDK does not implement ({match r with | some (r, _) => bHex r.version | none => "?"}, not older than 2026-07-28) and that meets every other documented precondition was answered {st}/{optInt code}{if handled == 0 then "" else " after a handler ran"} instead of HTTP 400 with JSON-RPC -32022 listing the supported versions (or -32602)"
   | .seqLegacy => "C12: client_server_agree over time: a call on a legacy-protocol session (no Mcp-* mirror applies) is refused or altered"
   | .reached st => s!"C12: refused request (status {st}) reached a middleware/handler"
   | .dispatchSound p => s!"C12: dispatch_sound: dispatched although: {match r with | some (r, ins) => precondText r ins p | none => reprStr p}"
@@ -591,9 +593,9 @@ def stepOp (toks : List String) (impl : String) : Verdict :=
       let o := verdict std64 req
       let obs := parseHttpObs impl
       let viol := match obs with
-        | some ob => (httpMonitorAll std64 req ins ob).map (clauseText (some (req, ins)))
+        | some ob => (httpMonitorAllV std64 req ins ob).map (clauseText (some (req, ins)))
         | none => some s!"C12: the handler did not answer ({impl})"
-      let model := modelObs req o (obs.getD blankObs)
+      let model := modelObsV req o (obs.getD blankObs)
       -- self-check of the string layer: the model's observation survives rendering and parsing
       let viol := if parseHttpObs (showHttpObs model) == some model then viol
         else viol.orElse (fun _ => some "LIBDISC render/parse: the model's observation does not survive the string layer")
